@@ -139,7 +139,12 @@ class CFG:
                 tn.revisit = True
             after = []
             self._loops.append((head, after))
+            first_body = len(self.nodes)
             body_end = self._seq(st.body, t)
+            # one trip around a while loop passes its body nodes once more on
+            # the way to an exit inside the body (`while 1: ... if c: return`)
+            for tn in self.nodes[first_body:]:
+                tn.revisit = True
             self._loops.pop()
             for n, lab in body_end:
                 self._edge(n, head, lab or 'loop')
